@@ -57,6 +57,9 @@ pub fn solve_instance(input_data: serde_json::Value) -> serde_json::Value {
         "Result from min cost flow solver".to_string(),
     );
 
+    #[cfg(feature = "verif")]
+    solution::verif::record("start", start_schedule_with_info.get_schedule());
+
     let solution = if network.maintenance_considered() {
         println!("\nStarting local search:\n");
         println!("Initial objective value:");
@@ -74,6 +77,9 @@ pub fn solve_instance(input_data: serde_json::Value) -> serde_json::Value {
         println!("\nMaintenance is not considered, returning MinCostFlowSolver solution as final solution");
         objective.evaluate(start_schedule_with_info.clone())
     };
+
+    #[cfg(feature = "verif")]
+    solution::verif::record("after_ls", solution.solution().get_schedule());
 
     // optimize transitions
     println!("\nOptimizing transitions:");
@@ -100,6 +106,8 @@ pub fn solve_instance(input_data: serde_json::Value) -> serde_json::Value {
     }
     let schedule_with_optimized_transitions =
         schedule.set_next_day_transitions(optimized_transitions);
+    #[cfg(feature = "verif")]
+    solution::verif::record("after_transition_opt", &schedule_with_optimized_transitions);
     println!(
         "Transition optimized (elapsed time: {:0.2}sec)",
         start_time_transition_optimization.elapsed().as_secs_f32()
@@ -120,6 +128,9 @@ pub fn solve_instance(input_data: serde_json::Value) -> serde_json::Value {
 
     let end_time = stdtime::Instant::now();
     let runtime_duration = end_time.duration_since(start_time);
+
+    #[cfg(feature = "verif")]
+    solution::verif::record("final", final_solution.solution().get_schedule());
 
     let final_schedule = final_solution.solution().get_schedule();
 
